@@ -136,7 +136,9 @@ def part_b(ctx, info, replay_obj=None):
     info["techniques"].append("Ratchet.tla / GenRatchet.tla / MonRatchet.tla of C02 reused for announcement positions")
 
 
-PARTS = [("a", part_a), ("b", part_b)]
+import keydist
+
+PARTS = [("a", part_a), ("b", part_b), ("c", keydist.run_part_c)]
 
 
 def run(ctx, replay=None):
@@ -152,6 +154,7 @@ def run(ctx, replay=None):
     ctx.extra["parts"] = info["parts"]
     ctx.extra["design_level"] = info["design_level"]
     ctx.extra["not_covered_yet"] = [] if any(n == "c" for n, _ in PARTS) else ["(c) completeness in a group of active members (KeyDistribution, needs orbit-db peers)"]
+    ctx.assumptions += keydist.ASSUMPTIONS
     ctx.assumptions += ["symbolic keys (perfect box); key-sharing structure of account/contact groups as implemented (checked by the driver on the real key bytes)",
                         "fresh stores for every attempt (RegisterChainKey ignores an already registered device after decrypting)",
                         "TLC 1.8.0, Go toolchain, in-memory datastore"]
